@@ -87,7 +87,8 @@ var c09Streams = []string{
 	"",
 	" \n",
 	"[1]\n[2]\n[3]\n[4]\n[5]\n[6]\n",
-	"{\"k\":\"" + strings.Repeat("x", 150) + "\"}\n[2]\n", // a line longer than the (scaled) chunk and bufio buffers
+	"{\"k\":\"" + strings.Repeat("x", 150) + "\"}\n[2]\n",     // a line longer than the (scaled) chunk and bufio buffers
+	"[" + strings.Repeat("1,", 11000) + "1]\n{\"after\":1}\n", // one dense 22 KB chunk (16 index buffers), then a small one
 }
 
 type c09Obs struct {
@@ -398,6 +399,18 @@ func c09Body(w *W) {
 		quick := !w.Thorough()
 		if quick && si == 5 {
 			continue // four documents: thorough tier only
+		}
+		if si == 10 {
+			// dense large chunk: default schedule and one deviation, whole and cut once in the middle
+			for _, cuts := range [][]int{nil, {11000}} {
+				if w.Mine() {
+					run(job{c09Env{Stream: si, Cuts: cuts, FaultAt: -1, Recycle: 0xff, Gomax: 3, ResCap: 0, TmpSize: 64}, 1, 0}, stream, want)
+				}
+				if w.Mine() {
+					run(job{c09Env{Stream: si, Cuts: cuts, FaultAt: -1, Recycle: 0, Gomax: 1, ResCap: 2, TmpSize: 10 << 20}, 0, 0}, stream, want)
+				}
+			}
+			continue
 		}
 		if si == 9 {
 			// long line: no cut, and single cuts every 8 bytes
